@@ -479,6 +479,16 @@ fn money_text(v: Decimal, style: u8, negative: bool) -> String {
     if negative { format!("-{}", body.trim()) } else { body }
 }
 
+/// Dividend and withholding rows sometimes carry a blank Amount ("" or "--"): such a row adds
+/// nothing to any total (and may or may not be counted as skipped).
+fn blank_amount(r: &Row) -> Option<&'static str> {
+    match (&r.kind, r.target % 8) {
+        (Kind::Dividend(_) | Kind::Nra(_), 6) => Some("--"),
+        (Kind::Dividend(_) | Kind::Nra(_), 7) => Some(""),
+        _ => None,
+    }
+}
+
 fn row_date(base: NaiveDate, r: &Row) -> NaiveDate {
     base + Duration::days(r.off as i64)
 }
@@ -520,8 +530,8 @@ fn row_json(base: NaiveDate, r: &Row, rows: &[Row]) -> Value {
             }
         }
         Kind::Spa => mk("Stock Plan Activity", sym, money_text(qty, 1, false), "".into(), "".into(), "".into()),
-        Kind::Dividend(k) => mk(DIV_ACTIONS[*k as usize % 4], sym, "".into(), "".into(), "".into(), money_text(amount, r.style, r.style % 5 == 0)),
-        Kind::Nra(k) => mk(NRA_ACTIONS[*k as usize % 2], sym, "".into(), "".into(), "".into(), money_text(amount, r.style, r.style % 3 != 0)),
+        Kind::Dividend(k) => mk(DIV_ACTIONS[*k as usize % 4], sym, "".into(), "".into(), "".into(), blank_amount(r).map(String::from).unwrap_or_else(|| money_text(amount, r.style, r.style % 5 == 0))),
+        Kind::Nra(k) => mk(NRA_ACTIONS[*k as usize % 2], sym, "".into(), "".into(), "".into(), blank_amount(r).map(String::from).unwrap_or_else(|| money_text(amount, r.style, r.style % 3 != 0))),
         Kind::Split => mk("Stock Split", sym, money_text(qty, 1, false), "".into(), "".into(), "".into()),
         Kind::NonCgt(k) => mk(NONCGT[*k as usize % NONCGT.len()], if r.style % 2 == 0 { "" } else { sym }, "".into(), "".into(), "".into(), money_text(amount, r.style, true)),
         Kind::Unknown(k) => mk(UNKNOWN[*k as usize % UNKNOWN.len()], sym, money_text(qty, 1, false), "".into(), "".into(), money_text(amount, 0, false)),
@@ -641,6 +651,7 @@ fn expectation(base: NaiveDate, rows: &[Row], awards_table: &BTreeMap<(String, N
     let mut dividends: BTreeMap<(NaiveDate, String), (Decimal, Decimal)> = BTreeMap::new();
     let mut nra: BTreeMap<(NaiveDate, String), Decimal> = BTreeMap::new();
     let mut skipped = 0;
+    let mut blank_rows = 0;
     let mut unknown_actions = vec![];
     for r in rows {
         let date = row_date(base, r);
@@ -674,6 +685,7 @@ fn expectation(base: NaiveDate, rows: &[Row], awards_table: &BTreeMap<(String, N
                 let (vest, p) = found.ok_or_else(|| "harness: SPA row without awards entry".to_string())?;
                 trades.push(Trade { buy: true, date: vest, sym, qty: norm(qty), price: norm(p), fees: norm(Decimal::ZERO) });
             }
+            Kind::Dividend(_) | Kind::Nra(_) if blank_amount(r).is_some() => blank_rows += 1,
             Kind::Dividend(_) => {
                 dividends.entry((date, sym)).or_insert((Decimal::ZERO, Decimal::ZERO)).0 += amount;
             }
@@ -705,7 +717,7 @@ fn expectation(base: NaiveDate, rows: &[Row], awards_table: &BTreeMap<(String, N
             None => orphan += 1,
         }
     }
-    Ok(Expect { trades, dividends, skipped_min: skipped, skipped_max: skipped + orphan, unknown_actions, unmatched_cancels: unmatched, orphan_nra: orphan })
+    Ok(Expect { trades, dividends, skipped_min: skipped, skipped_max: skipped + orphan + blank_rows, unknown_actions, unmatched_cancels: unmatched, orphan_nra: orphan })
 }
 
 fn trades_of(parsed: &[Transaction]) -> Vec<Trade> {
